@@ -131,3 +131,74 @@ func VP_C11_Diagnostics() {
 	}
 	vp.Reach("end")
 }
+
+// vpNodeSolid: the solid of a hierarchy node: whether it contains the probe
+// point is a solver variable per node.
+type vpNodeSolid struct {
+	name string
+	in   bool
+}
+
+func (s *vpNodeSolid) Min() Coord3D          { return XYZ(-10, -10, -10) }
+func (s *vpNodeSolid) Max() Coord3D          { return XYZ(10, 10, 10) }
+func (s *vpNodeSolid) Contains(Coord3D) bool { return s.in }
+
+// VP_C11_InsertLeaf: MeshHierarchy.insertLeaf puts a new (leaf) component
+// under the deepest node that encloses it: in a hand-built hierarchy
+// root -> {A -> {A1}, B -> {B1, B2}} with symbolic "node encloses the new
+// component" answers (nested consistently, siblings disjoint) the new node
+// becomes a child of exactly the innermost enclosing node and nothing else
+// changes.
+func VP_C11_InsertLeaf() {
+	node := func(name string, kids ...*MeshHierarchy) (*MeshHierarchy, *vpNodeSolid) {
+		s := &vpNodeSolid{name: name, in: vp.Bool(name + " encloses the new component")}
+		return &MeshHierarchy{Mesh: NewMesh(), MeshSolid: s, Children: kids}, s
+	}
+	a1, sa1 := node("A1")
+	b1, sb1 := node("B1")
+	b2, sb2 := node("B2")
+	a, sa := node("A", a1)
+	b, sb := node("B", b1, b2)
+	root := &MeshHierarchy{Mesh: NewMesh(), MeshSolid: &vpNodeSolid{name: "root", in: true}, Children: []*MeshHierarchy{a, b}}
+	// nesting is consistent and siblings are disjoint
+	vp.Assume(vp.All(vp.Implies(sa1.in, sa.in), vp.Implies(sb1.in, sb.in), vp.Implies(sb2.in, sb.in), !(sa.in && sb.in), !(sb1.in && sb2.in)))
+	leaf := NewMeshRect(XYZ(0, 0, 0), XYZ(1, 1, 1))
+	leafSolid := &vpNodeSolid{name: "leaf"}
+	root.insertLeaf(leaf, leafSolid, XYZ(0, 0, 0))
+
+	want := root
+	switch {
+	case sa1.in:
+		want = a1
+	case sa.in:
+		want = a
+	case sb1.in:
+		want = b1
+	case sb2.in:
+		want = b2
+	case sb.in:
+		want = b
+	}
+	total := 0
+	for _, n := range []*MeshHierarchy{root, a, b, a1, b1, b2} {
+		extra := 0
+		for _, c := range n.Children {
+			if c.MeshSolid == Solid(leafSolid) {
+				extra++
+				vp.Assert(c.Mesh == leaf && len(c.Children) == 0, "the new node carries the new component and has no children")
+			}
+		}
+		total += extra
+		vp.Assert((extra == 1) == (n == want), "the new component becomes a child of exactly the innermost enclosing node")
+	}
+	vp.Assert(total == 1, "the new component is inserted exactly once")
+	vp.Assert(len(root.Children) == 2+b2i(want == root) && len(a.Children) == 1+b2i(want == a) && len(b.Children) == 2+b2i(want == b), "existing children are kept")
+	vp.Reach("end")
+}
+
+func b2i(b bool) int {
+	if b {
+		return 1
+	}
+	return 0
+}
